@@ -499,11 +499,22 @@ def as_json_nat(rng, n):
     return n if rng.random() < 0.2 else str(n)
 
 
+# a few implicit accounts that recur in every role (source, delegate, destination, pkh) within one run and within one group: the
+# 21-byte key-hash form and the 22-byte contract-id form of one address must never be confused, whatever was forged before
+ACCOUNTS = []
+
+
 def gen_pkh(rng, curves=PKH):
+    if ACCOUNTS and rng.random() < 0.3:
+        cand = [a for a in ACCOUNTS if a[:3] in curves]
+        if cand:
+            return rng.choice(cand)
     return b58e(rng.choice(curves), rng.bytes_(20))
 
 
 def gen_addr(rng):
+    if ACCOUNTS and rng.random() < 0.3:
+        return rng.choice(ACCOUNTS)
     return b58e(rng.choice(ADDR), rng.bytes_(20))
 
 
@@ -596,7 +607,14 @@ def gen_content(rng, kind, prims):
 def gen_group(rng, prims):
     n = rng.choice([1, 1, 1, 2, 2, 3, 4, 5, 6, 7, 8])
     kinds = list(SCHEMA)
-    return {'branch': b58e('B', rng.bytes_(32)), 'contents': [gen_content(rng, rng.choice(kinds), prims) for _ in range(n)]}
+    contents = [gen_content(rng, rng.choice(kinds), prims) for _ in range(n)]
+    if rng.random() < 0.25:      # one account in two roles inside the group: destination = source (stake / self transfer), delegate = source
+        for c in contents:
+            if 'destination' in c and c.get('source', '')[:2] == 'tz' and rng.random() < 0.6:
+                c['destination'] = c['source']
+            if c.get('delegate') and rng.random() < 0.6:
+                c['delegate'] = c['source']
+    return {'branch': b58e('B', rng.bytes_(32)), 'contents': contents}
 
 
 def fixed_groups(rng, prims):
@@ -682,6 +700,7 @@ def run(ctx):
     protocol_prims = sorted(k for k, v in prim_tags.items() if v != b'\xee')
     prim_of_tag = {prim_tags[k][0]: k for k in protocol_prims}
     n_groups = 3000 if ctx.tier == 'quick' else 100000
+    ACCOUNTS[:] = [b58e(PKH[i % len(PKH)], ctx.rng.bytes_(20)) for i in range(6)]
     groups = fixed_groups(ctx.rng, protocol_prims)
     for _ in range(n_groups):
         groups.append(gen_group(ctx.rng, protocol_prims))
